@@ -1,6 +1,6 @@
 //! C10 — block builders emit exactly the accepted bundles within the cost limit.
 //! Engine H: every history of <= 4 (quick) / <= 5 (thorough) add_spend_bundles calls over a
-//! 25-letter alphabet (5 bundle shapes x 5 declared-cost policies, incl. "lands exactly on the
+//! 30-letter alphabet (6 bundle shapes x 5 declared-cost policies, incl. "lands exactly on the
 //! limit" and "one more than that") followed by finalize, for both builders, each re-executed on
 //! a fresh real builder. Oracles: own decoding of the generator, own signature aggregate,
 //! consensus cost of the generator, and the differential undo oracle (history with the rejected
@@ -40,6 +40,9 @@ enum Shape {
     Undecodable,
     /// batch of [One, TwoShared]
     Batch,
+    /// batch of [a valid one-spend bundle, a bundle whose reveal cannot be decoded]: the add must
+    /// return Err and leave nothing of the first bundle behind
+    BatchBad,
 }
 
 #[derive(Clone, Copy, Debug, PartialEq, Eq, Hash)]
@@ -54,7 +57,7 @@ enum CostPolicy {
     Zero,
 }
 
-const SHAPES: [Shape; 5] = [Shape::One, Shape::TwoShared, Shape::Big, Shape::Undecodable, Shape::Batch];
+const SHAPES: [Shape; 6] = [Shape::One, Shape::TwoShared, Shape::Big, Shape::Undecodable, Shape::Batch, Shape::BatchBad];
 const POLICIES: [CostPolicy; 5] = [CostPolicy::Truthful, CostPolicy::Exact, CostPolicy::ExactPlusOne, CostPolicy::LimitPlusOne, CostPolicy::Zero];
 
 /// a puzzle with some structure so that the compressors have something to share
@@ -74,6 +77,7 @@ fn gspends(shape: Shape, pos: usize) -> Vec<Vec<GSpend>> {
         Shape::Big => vec![vec![GSpend { parent: parent(4), amount: 10, puzzle: shared_puzzle(), solution: Sx::list(&[conds(1), Sx::atom(&vec![0x5a; 40_000])]) }]],
         Shape::Undecodable => vec![vec![one(5)]], // reveal replaced by garbage in `bundles`
         Shape::Batch => vec![vec![one(6)], vec![one(7), one(8)]],
+        Shape::BatchBad => vec![vec![one(9)], vec![one(10)]], // second reveal replaced by garbage in `bundles`
     }
 }
 
@@ -127,7 +131,7 @@ fn bundles_uncached(shape: Shape, pos: usize) -> Vec<SpendBundle> {
         .enumerate()
         .map(|(i, sp)| {
             let mut cs: Vec<CoinSpend> = sp.iter().map(GSpend::coin_spend).collect();
-            if shape == Shape::Undecodable {
+            if shape == Shape::Undecodable || (shape == Shape::BatchBad && i == 1) {
                 let c: Coin = cs[0].coin;
                 cs[0] = CoinSpend::new(Coin::new(c.parent_coin_info, Bytes32::new([9; 32]), c.amount), Program::from(vec![0xff, 0xff, 0x01]), Program::from(vec![0x80]));
             }
@@ -138,7 +142,7 @@ fn bundles_uncached(shape: Shape, pos: usize) -> Vec<SpendBundle> {
 
 /// execution + condition cost of the batch according to run_spendbundle
 fn truthful(shape: Shape, pos: usize) -> u64 {
-    if shape == Shape::Undecodable {
+    if shape == Shape::Undecodable || shape == Shape::BatchBad {
         return 1_000_000;
     }
     let c = constants();
@@ -260,13 +264,13 @@ fn execute<B: Builder>(adds: &[Add]) -> Result<RunOut, (String, String)> {
         match b.add(&bundles(a.shape, a.pos), a.declared) {
             Err(p) => return Err(("add-panic".into(), format!("add {i} ({:?}) panicked: {p}", a.shape))),
             Ok(Err(e)) => {
-                if a.shape != Shape::Undecodable {
+                if a.shape != Shape::Undecodable && a.shape != Shape::BatchBad {
                     return Err(("add-error".into(), format!("add {i} ({:?}) returned Err({e})", a.shape)));
                 }
                 results.push("err".into());
             }
             Ok(Ok((ok, done))) => {
-                if a.shape == Shape::Undecodable && ok {
+                if (a.shape == Shape::Undecodable || a.shape == Shape::BatchBad) && ok {
                     return Err(("undecodable-accepted".into(), format!("add {i}: a bundle whose puzzle reveal cannot be decoded was accepted")));
                 }
                 if ok {
@@ -428,7 +432,7 @@ fn parse_hist(v: &Value) -> Vec<(Shape, CostPolicy)> {
 
 fn run(rep: &Report) {
     let depth = rep.tier.pick(4, 5);
-    rep.set_rule(&format!("every history of <= {depth} add_spend_bundles calls over 25 letters = bundle shape {{one spend, two spends sharing its puzzle, 40 kB solution, undecodable reveal, batch of two bundles}} x declared cost {{truthful, lands exactly on the limit, that + 1, limit + 1, 0}}, followed by finalize, on a fresh BlockBuilder and a fresh InternedBlockBuilder (max block cost {MAX_BLOCK}); states = distinct (accepted adds, cost() estimate, last result) tuples; distinct = distinct histories x builder"));
+    rep.set_rule(&format!("every history of <= {depth} add_spend_bundles calls over 30 letters = bundle shape {{one spend, two spends sharing its puzzle, 40 kB solution, undecodable reveal, batch of two bundles, batch of a valid and an undecodable bundle}} x declared cost {{truthful, lands exactly on the limit, that + 1, limit + 1, 0}}, followed by finalize, on a fresh BlockBuilder and a fresh InternedBlockBuilder (max block cost {MAX_BLOCK}); states = distinct (accepted adds, cost() estimate, last result) tuples; distinct = distinct histories x builder"));
     rep.assume("truthful cost = execution + condition cost reported by run_spendbundle; 'lands exactly' is computed by a dry run of the same history on the real builder; generator decoded with clvmr's back-reference parser + harness Sx");
     // truthful costs per (shape, position)
     let mut tcost = BTreeMap::new();
